@@ -96,7 +96,7 @@ def correspond(ctx):
     # every tabulation target writes the grid fixed by the two given values (nr != nrho on purpose)
     ntargets = 0
     for target in ALL_TARGETS:
-        for (k, krho) in ([(8 - 1, 5)] if not ctx['thorough'] else [(8 - 1, 5), (12 - 1, 3), (4 - 1, 9)]):
+        for (k, krho) in ([(8 - 1, 5)] if not ctx['thorough'] else [(8 - 1, 5), (12 - 1, 3), (16 - 1, 9)]):
             ntargets += 1
             try: got = target_grid(target, k, krho)
             except Exception as e:
@@ -137,7 +137,8 @@ def oracle(case):
         want = float((int(v['nr']) - 1) * D(v['dr']))
         if nr != int(v['nr']) or abs(cut - want) > 1e-12 * max(1.0, want): fails.append('nr %s with dr %s gives cutoff %r (expected %r)' % (v['nr'], v['dr'], cut, want))
     if keys == {'nr', 'cutoff'} and (nr != int(v['nr']) or cut != float(v['cutoff'])): fails.append('nr/cutoff not kept: %r' % ((nr, cut),))
-    if case.get('table') and keys == {'cutoff', 'dr'}:
+    if case.get('table') and keys == {'cutoff', 'dr'} and (D(v['cutoff']) / D(v['dr'])) == (D(v['cutoff']) / D(v['dr'])).to_integral_value():
+        # (the statement is about commensurate pairs: otherwise the step actually used is cutoff/(nr-1), not dr)
         q = int(D(v['cutoff']) / D(v['dr']))
         if case['grid'] == 'r':
             txt = text_of(case, 'GULP') + '[Pair]\nA-A : as.constant 1.0\n'
